@@ -66,6 +66,7 @@ CLAUSE_PROPERTY = {
     "CM_PrefixSame": "C17",
     "CM_Coherent": "C07",
     "CM_NoInf": "C11",
+    "CM_BlobsVisible": "C07",
     "CallsExact": "C13",
     "TM_NearOne": "C12",
     "TM_ESS": "C12",
@@ -213,7 +214,7 @@ class Recorder:
         if not ids:
             ids = {0}
         self.l2u.setdefault(_bits(logl), set()).update(ids)
-        if self.have_blobs and blob is not None:
+        if blob is not None:   # registered whether or not blobs are configured: whatever blob the user is shown must be this one
             self.b2u.setdefault(np.ascontiguousarray(np.asarray(blob)).tobytes(), set()).update(ids)
 
     def wrap_like(self, ll, vectorize=False):
@@ -621,7 +622,20 @@ class Recorder:
         blobs = H["blobs"][-1] if (self.have_blobs and H["blobs"]) else None
         batch = [s[:4] for s in self.slots(H["u"][-1], H["x"][-1], H["logl"][-1], blobs)] if T and H["u"] else []
         recorded = [k for k in sorted(H.keys()) if not (k == "blobs" and not self.have_blobs)]
-        self._emit("Commit", batch=batch, histLen=T, keyLens=[len(H[k]) for k in recorded], prefixSame=bool(prefix_same))
+        # the blobs of the current state are what Sampler.sample() hands to the user: absent, or those of these particles
+        cur = st._current
+        blobs_ok = True
+        cb = cur.get("blobs")
+        if cb is not None and cur.get("u") is not None and len(cb) == len(cur["u"]):
+            for i in range(len(cb)):
+                uid = self.utag.get(_row(cur["u"][i]))
+                bs = self.b2u.get(np.ascontiguousarray(np.asarray(cb[i])).tobytes(), ())
+                if uid is None or uid not in bs:
+                    blobs_ok = False
+                    break
+        elif cb is not None:
+            blobs_ok = False
+        self._emit("Commit", batch=batch, histLen=T, keyLens=[len(H[k]) for k in recorded], prefixSame=bool(prefix_same), blobsOK=bool(blobs_ok))
 
     def _on_loop_exit(self, r):
         from tempest.tools import effective_sample_size
